@@ -64,7 +64,7 @@ Fixpoint fdepth (o : fobj) : nat :=
   match o with FObj items _ => S (fold_right (fun kv m => Nat.max (fdepth (snd kv)) m) O items) end.
 
 (* list helpers *)
-Fixpoint list_eqb {A} (eqb : A -> A -> bool) (a b : list A) : bool :=
+Fixpoint list_eqb {A B} (eqb : A -> B -> bool) (a : list A) (b : list B) : bool :=
   match a, b with
   | [], [] => true
   | x :: a', y :: b' => eqb x y && list_eqb eqb a' b'
@@ -79,3 +79,79 @@ Fixpoint nodup_str (l : list string) : bool :=
   | [] => true
   | x :: r => negb (mem_str x r) && nodup_str r
   end.
+
+(* ---- strings as the Go code handles them (bytes; ASCII case folding only: every name of the domain is ASCII) *)
+From Coq Require Import Ascii.
+
+Fixpoint split_on (c : ascii) (s : string) : list string :=
+  match s with
+  | EmptyString => [EmptyString]
+  | String a r =>
+    if Ascii.eqb a c then EmptyString :: split_on c r
+    else match split_on c r with
+         | [] => [String a EmptyString]
+         | h :: t => String a h :: t
+         end
+  end.
+
+Fixpoint join_with (sep : string) (l : list string) : string :=
+  match l with
+  | [] => EmptyString
+  | [x] => x
+  | x :: r => (x ++ sep ++ join_with sep r)%string
+  end.
+
+(* strings.SplitN(s, ".", n) for n >= 1: at most n pieces, the last one unsplit *)
+Fixpoint splitn_dot_aux (n : nat) (pieces : list string) : list string :=
+  match n, pieces with
+  | _, [] => []
+  | O, _ => pieces
+  | S O, _ => [join_with "." pieces]
+  | S n', p :: r => p :: splitn_dot_aux n' r
+  end.
+Definition splitn_dot (n : nat) (s : string) : list string := splitn_dot_aux n (split_on "." s).
+
+Fixpoint contains_char (c : ascii) (s : string) : bool :=
+  match s with
+  | EmptyString => false
+  | String a r => Ascii.eqb a c || contains_char c r
+  end.
+
+Definition lower_ascii (a : ascii) : ascii :=
+  let n := nat_of_ascii a in
+  if (Nat.leb 65 n && Nat.leb n 90)%bool then ascii_of_nat (n + 32) else a.
+Fixpoint lower (s : string) : string :=
+  match s with
+  | EmptyString => EmptyString
+  | String a r => String (lower_ascii a) (lower r)
+  end.
+
+Fixpoint is_prefix (p s : string) : bool :=
+  match p, s with
+  | EmptyString, _ => true
+  | String a p', String b s' => Ascii.eqb a b && is_prefix p' s'
+  | _, _ => false
+  end.
+
+Definition is_nil {A} (l : list A) : bool := match l with [] => true | _ => false end.
+Definition is_some {A} (o : option A) : bool := match o with Some _ => true | None => false end.
+
+Fixpoint set_assoc {A} (k : string) (v : A) (l : list (string * A)) : list (string * A) :=
+  match l with
+  | [] => [(k, v)]
+  | (k', v') :: r => if String.eqb k k' then (k, v) :: r else (k', v') :: set_assoc k v r
+  end.
+
+Fixpoint index_of (s : string) (l : list string) (i : N) : option N :=
+  match l with
+  | [] => None
+  | x :: r => if String.eqb s x then Some i else index_of s r (i + 1)
+  end.
+
+Lemma assoc_in : forall A (k : string) (l : list (string * A)) v, assoc k l = Some v -> In (k, v) l.
+Proof.
+  induction l as [|[k' v'] r IH]; simpl; intros v H; [discriminate|].
+  destruct (String.eqb k k') eqn:E.
+  - apply String.eqb_eq in E. subst. inversion H. subst. left. reflexivity.
+  - right. apply IH. exact H.
+Qed.
